@@ -382,6 +382,28 @@ def ctlReq {σ} (dev : Dev σ) (s : St σ) (r : CtlReq) : Out σ Unit :=
   | some e => (s, .err (.ofUsb e))
   | none => (s, .ok ())
 
+/-- `initialize_channel`: `set_halt` (IN, OUT), `clear_halt` (IN, OUT), `initialize_config`. -/
+def initializeChannel {σ} (dev : Dev σ) (p : Profile) (s : St σ) : Out σ Unit :=
+  match ctlReq dev s .setHaltIn with
+  | (s, .panic) => (s, .panic)
+  | (s, .err e) => (s, .err e)
+  | (s, .ok ()) =>
+    match ctlReq dev s .setHaltOut with
+    | (s, .panic) => (s, .panic)
+    | (s, .err e) => (s, .err e)
+    | (s, .ok ()) =>
+      match ctlReq dev s .clearHaltIn with
+      | (s, .panic) => (s, .panic)
+      | (s, .err e) => (s, .err e)
+      | (s, .ok ()) =>
+        match ctlReq dev s .clearHaltOut with
+        | (s, .panic) => (s, .panic)
+        | (s, .err e) => (s, .err e)
+        | (s, .ok ()) =>
+          -- back to `INITIAL_MAXIMUM_CMD_LENGTH` / `INITIAL_MAXIMUM_ACK_LENGTH`
+          initializeConfig dev p { s with h := { s.h with cfg := { s.h.cfg with
+            maxCmd := Config.default.maxCmd, maxAck := Config.default.maxAck } } }
+
 /-- `DeviceControl::open` -/
 def «open» {σ} (dev : Dev σ) (p : Profile) (s : St σ) : Out σ Unit :=
   if s.h.opened then (s, .ok ()) else
@@ -391,22 +413,16 @@ def «open» {σ} (dev : Dev σ) (p : Profile) (s : St σ) : Out σ Unit :=
   | (s, .err e) => (s, .err e)
   | (s, .ok ()) =>
     let s := { s with h := { s.h with opened := true } }
-    match ctlReq dev s .setHaltIn with
+    match initializeChannel dev p s with
     | (s, .panic) => (s, .panic)
-    | (s, .err e) => (s, .err e)
-    | (s, .ok ()) =>
-      match ctlReq dev s .setHaltOut with
+    | (s, .ok ()) => (s, .ok ())
+    | (s, .err e) =>
+      -- `inner.close()`: release the interface, `is_opened = false` only when that succeeds;
+      -- its error is logged and dropped, the initialization error is returned
+      match ctlReq dev s .release with
       | (s, .panic) => (s, .panic)
-      | (s, .err e) => (s, .err e)
-      | (s, .ok ()) =>
-        match ctlReq dev s .clearHaltIn with
-        | (s, .panic) => (s, .panic)
-        | (s, .err e) => (s, .err e)
-        | (s, .ok ()) =>
-          match ctlReq dev s .clearHaltOut with
-          | (s, .panic) => (s, .panic)
-          | (s, .err e) => (s, .err e)
-          | (s, .ok ()) => initializeConfig dev p s
+      | (s, .err _) => (s, .err e)
+      | (s, .ok ()) => ({ s with h := { s.h with opened := false } }, .err e)
 
 /-- `DeviceControl::close` -/
 def close {σ} (dev : Dev σ) (s : St σ) : Out σ Unit :=
